@@ -19,7 +19,12 @@ def gen_case(rng, i):
     rng.shuffle(vs)
     xv, yv = vs[0], vs[1]
     others = vs[2:]
-    shape = ["polygon", "polygon", "polygon", "segment", "point", "empty", "missing", "fixed_first"][i % 8]
+    shape = ["polygon", "polygon", "polygon", "segment", "point", "empty", "missing", "fixed_first", "fixed_only"][i % 9]
+    if shape == "fixed_only":
+        nv = 4
+        vs = rng.sample(["x", "y", "z", "w"], 4)
+        xv, yv = vs[0], vs[1]
+        others = vs[2:]
     rows = []
     n = rng.randint(1, 5)
     values = {v: rng.randint(-5, 5) for v in others}
@@ -42,6 +47,15 @@ def gen_case(rng, i):
         values.pop(others[0])
         if not any(others[0] in co for co, _ in rows):
             rows.append(({others[0]: 1, xv: 1}, 3))
+    elif shape == "fixed_only":
+        # every constraint is over the FIXED variables only: the slice is the whole window when the given values satisfy them
+        # and empty (ValueError) when they do not
+        ok = rng.random() < 0.5
+        a, b = rng.choice([1, 2, -1]), rng.choice([1, -1])
+        val = a * values[others[0]] + b * values[others[1]]
+        rows = [({others[0]: a, others[1]: b}, val + (rng.randint(0, 2) if ok else -rng.randint(1, 3)))]
+        if rng.random() < 0.5:
+            rows.append(({others[0]: -1}, -values[others[0]] + rng.randint(0, 2)))
     elif shape == "fixed_first" and others:
         # a fixed variable is mentioned first and y before x: the column order fix-up matters
         rows = [({others[0]: 1, yv: rng.choice([1, 2]), xv: rng.choice([2, 3, -1])}, rng.randint(2, 8))] + rows
